@@ -1,7 +1,9 @@
 """C05 - structural invariants of returned segments (see checks/engine_common.py and harness/common.cpp: project)."""
-from checks import engine_common
+from checks import engine_common, utfcommon
 
 
 def run(ck, tier, seed):
+    # first sentence (char-infos = decoded characters, strictly increasing bases): the UtfText ingestion contract
+    utfcommon.utftext(ck, tier, seed, props=("C05",))
     engine_common.run_engine(ck, tier, seed, pids=("C05",))
     ck.assumptions += ["the invariant is evaluated through the public API on every segment of wild programs, GDL-lite programs (all 8 direction values) and the corpus"]
